@@ -15,6 +15,8 @@
 
 pub struct Flags { pub hd: bool, pub hnd: bool, pub hp: bool }
 
+pub open spec fn mk_flags(hd: bool, hnd: bool, hp: bool) -> Flags { Flags { hd: hd, hnd: hnd, hp: hp } }
+
 pub open spec fn is_digit_char(c: char) -> bool { '0' <= c && c <= '9' }
 
 // the classification parse_term makes of a text: some digit / some period / some other character
@@ -120,5 +122,67 @@ pub proof fn lemma_flags_step(s: Seq<char>, n: int)
     if flags_of(b).hnd && !(!is_digit_char(s[n]) && s[n] != '.') {
         let k = choose|k: int| 0 <= k < b.len() && !is_digit_char(#[trigger] b[k]) && b[k] != '.';
         assert(k < n); assert(!is_digit_char(a[k]) && a[k] != '.');
+    }
+}
+
+// ---- the fragment of the argument contexts in which C20 holds, under proof -------------------------------------
+// a character that the argument scan of parse_arguments treats like parse_term does: no sign, no blank or other white
+// space, no bracket, quotation mark, comma or backslash
+pub open spec fn simple_char(c: char) -> bool {
+    c > ' ' && !is_ws(c) && c != '"' && c != '[' && c != ']' && c != '(' && c != ')' && c != ',' && c != '+' && c != '-' && c != '\\'
+}
+pub open spec fn all_simple(s: Seq<char>, lo: int, hi: int) -> bool {
+    forall|k: int| lo <= k < hi ==> simple_char(#[trigger] s[k])
+}
+pub open spec fn is_sign_char(c: char) -> bool { c == '+' || c == '-' || c == '*' || c == '/' }
+
+// T10, continued: arith_infix is the graph of check_arithmetic_infix, a total function (C18) whose body is proved to
+// return, when it reports an arithmetic infix, the position of a sign with a blank after it (clause #infix_is_a_sign,
+// unit contexts_c); so that holds of arith_infix at every text
+pub axiom fn axiom_arith_infix_is_a_sign(s: Seq<char>)
+    ensures is_arith(arith_infix(s).0) ==> arith_infix(s).1 + 1 < s.len() && is_sign_char(s[arith_infix(s).1 as int]) && s[arith_infix(s).1 + 1] == ' ';
+
+pub proof fn lemma_flags_push(s: Seq<char>, c: char)
+    ensures
+        flags_of(s.push(c)).hd == (flags_of(s).hd || is_digit_char(c)),
+        flags_of(s.push(c)).hp == (flags_of(s).hp || c == '.'),
+        flags_of(s.push(c)).hnd == (flags_of(s).hnd || (!is_digit_char(c) && c != '.')),
+{
+    let t = s.push(c);
+    assert(t.subrange(0, s.len() as int) =~= s);
+    assert(t.subrange(0, t.len() as int) =~= t);
+    lemma_flags_step(t, s.len() as int);
+}
+
+// a text without white space is its own trim
+pub proof fn lemma_trim_nothing(s: Seq<char>)
+    requires forall|k: int| 0 <= k < s.len() ==> !is_ws(#[trigger] s[k]), is_trim_of(trimmed(s), s),
+    ensures trimmed(s) == s,
+{
+    let r = trimmed(s);
+    let (i, j) = choose|i: int, j: int| trim_at(r, s, i, j);
+    assert(trim_at(r, s, i, j));
+    if i > 0 { assert(is_ws(s[0])); }
+    if j < s.len() { assert(is_ws(s[s.len() - 1])); }
+    assert(s.subrange(0, s.len() as int) =~= s);
+}
+
+// a simple piece written as an argument: no infix on its own, nothing to unescape, nothing to trim
+pub proof fn lemma_simple_piece(src: Seq<char>, lo: int, hi: int)
+    requires 0 <= lo <= hi <= src.len(), all_simple(src, lo, hi), is_trim_of(trimmed(src.subrange(lo, hi)), src.subrange(lo, hi)),
+    ensures
+        trimmed(src.subrange(lo, hi)) == src.subrange(lo, hi),
+        unescape2(src.subrange(lo, hi)) == src.subrange(lo, hi),
+        !is_arith(arith_infix(src.subrange(lo, hi)).0),
+{
+    let p = src.subrange(lo, hi);
+    assert forall|k: int| 0 <= k < p.len() implies !is_ws(#[trigger] p[k]) by { assert(simple_char(src[lo + k])); }
+    lemma_trim_nothing(p);
+    if p.len() == 2 { assert(simple_char(src[lo])); assert(p[0] == src[lo]); }
+    axiom_arith_infix_is_a_sign(p);
+    if is_arith(arith_infix(p).0) {
+        let x = arith_infix(p).1 as int;
+        assert(simple_char(src[lo + x + 1]));
+        assert(p[x + 1] == src[lo + x + 1]);
     }
 }
